@@ -435,6 +435,11 @@ func CanonicalInUnion(members []*yang.YangType, i int, lex string) bool {
 		if j == i {
 			continue
 		}
+		if !isEnumKind(mi.Kind) && mj.Kind == mi.Kind && mi.Kind != yang.Yunion {
+			// same base type, hence the same Go representation: whichever of the two
+			// members accepts the value, it decodes to the same Go value
+			continue
+		}
 		var shadows bool
 		switch {
 		case mi.Kind == yang.Ystring:
